@@ -954,7 +954,9 @@ impl PackageBuilder {
             IndexEntry::new(
                 IndexTag::RPMTAG_GROUP,
                 offset,
-                IndexData::I18NString(vec!["Unspecified".to_string()]),
+                IndexData::I18NString(vec![
+                    self.group.unwrap_or_else(|| "Unspecified".to_string()),
+                ]),
             ),
             IndexEntry::new(
                 IndexTag::RPMTAG_ARCH,
